@@ -132,8 +132,8 @@ Theorem cover_sound : forall t off m parent rs re n o m' p',
 Proof.
   induction t as [k s a|k cs a IH] using tree_ind'; intros off m parent rs re n o m' p' H.
   - cbn [cover] in H.
-    destruct ((off <=? rs) && (re <=? off + byte_size (Leaf k s a)) && coverable (Leaf k s a)) eqn:E; [|discriminate].
-    inversion H; subst. apply andb_prop in E. destruct E as [E Ec]. apply andb_prop in E. destruct E as [E1 E2].
+    destruct ((off <=? rs) && (re <=? off + byte_size (Leaf k s a)) && coverable_at parent (Leaf k s a)) eqn:E; [|discriminate].
+    inversion H; subst. apply andb_prop in E. destruct E as [E Ec]. unfold coverable_at in Ec. apply andb_prop in Ec. destruct Ec as [Ec _]. apply andb_prop in E. destruct E as [E1 E2].
     apply N.leb_le in E1, E2. repeat split; try assumption. constructor.
   - cbn [cover] in H.
     match type of H with
@@ -148,8 +148,8 @@ Proof.
       rewrite Forall_forall in IH. specialize (IH c Hin _ _ _ _ _ _ _ _ _ Hc).
       destruct IH as (H1 & H2 & H3 & H4). repeat split; try assumption.
       eapply sa_child; eassumption.
-    + destruct ((off <=? rs) && (re <=? off + byte_size (Inner k cs a)) && coverable (Inner k cs a)) eqn:E; [|discriminate].
-      inversion H; subst. apply andb_prop in E. destruct E as [E Ec]. apply andb_prop in E. destruct E as [E1 E2].
+    + destruct ((off <=? rs) && (re <=? off + byte_size (Inner k cs a)) && coverable_at parent (Inner k cs a)) eqn:E; [|discriminate].
+      inversion H; subst. apply andb_prop in E. destruct E as [E Ec]. unfold coverable_at in Ec. apply andb_prop in Ec. destruct Ec as [Ec _]. apply andb_prop in E. destruct E as [E1 E2].
       apply N.leb_le in E1, E2. repeat split; try assumption. constructor.
 Qed.
 
